@@ -10,3 +10,5 @@ func verifStatus(*Stage, int32) {}
 func verifSchedule(*Scheduler, *ExecutionGraph, bool, error) {}
 
 func verifRun(*Stage, bool, error) {}
+
+func verifCancel(*Scheduler) {}
